@@ -77,6 +77,7 @@ pub struct RulesCfg {
     pub with_text: bool,
     pub with_pos: bool,
     pub repeat_bias: f64,
+    pub emit_gen: bool,
 }
 
 pub fn gen_event(
@@ -236,7 +237,9 @@ pub fn run(t: &Tables, seeds: &[String], dir: &str, nshards: usize, seed: u64, c
             let fresh = seen.insert(sig);
             let path = json!({"fen": fen, "texts": texts, "capsfrom": -1});
             let (ev, moves) = gen_event(t, &board, MoveGenerationMode::AllMoves, par, via, cfg.with_text, "playout", &path);
-            let line = if fresh || par != 0 {
+            let line = if !cfg.emit_gen {
+                0
+            } else if fresh || par != 0 {
                 n_gen += 1;
                 out.emit(shard, &ev)
             } else {
